@@ -84,10 +84,7 @@
 (***************************************************************************)
 EXTENDS Integers, Sequences, FiniteSets, TLC, Json, IOUtils
 
-CONSTANTS Source,        \* "enum" | "file"
-          MovedModuleDocformat  \* the __docformat__ a re-exported MODULE inherits when it declares none itself:
-                          \* "new_package" (Module.docformat asks self.parent, which reparent() has set to the package
-                          \* that re-exports it, model.py:514-528) | "defining_package"
+CONSTANT Source          \* "enum" | "file"
 
 DocFormats == {"epytext", "restructuredtext", "plaintext", "google", "numpy"}
 Docutils == DocFormats \ {"plaintext"}     \* formats rendered through docutils nodes
@@ -105,9 +102,8 @@ Routes ==
     rstquote   |-> <<"RstInterpolate", "ToNode", "DocutilsEncode", "ParseXml", "FlattenToFile">>,
     \* a ".. raw:: html" block read by the reST parser: a raw node whose content the HTML writer copies (visit_raw); its
     \* tags become elements, the text between them stays as it was.  rawexplicit: the block is in a reST docstring - the
-    \* author's explicit raw directive, EXEMPT from the property.  rawdirective: the text of a PLAINTEXT docstring.
+    \* author's explicit raw directive, EXEMPT from the property.
     rawexplicit  |-> <<"ToNode", "DocutilsRaw", "ParseXmlTags", "FlattenToFile">>,
-    rawdirective |-> <<"ToNode", "DocutilsRaw", "ParseXmlTags", "FlattenToFile">>,
     \* :math:`\text{...}` / `\mbox{...}`: docutils math2html copies text-mode content unescaped into the HTML
     \* (visit_math is not overridden in node2stan.py): entity look-alikes are decoded by html2stan
     mathtext   |-> <<"ToNode", "MathToHtml", "ParseXml", "FlattenToFile">> ]
@@ -235,10 +231,10 @@ Feeds ==
   \cup { Feed("sametext." \o o, S("docstring", "text", FALSE), "stan") : o \in {"rstfirst", "plainfirst"} }
   \cup { Feed("sametext." \o o, S("docstring", "text", FALSE), "rawexplicit") : o \in {"rstfirst", "plainfirst"} }
   \* a function of a module of a `__docformat__ = "plaintext"` package, the MODULE being re-exported by a restructuredtext
-  \*   package: plaintext like doc.plaintext - but see MovedModuleDocformat
+  \*   package: the module inherits the docformat of the package it is DEFINED in (Module._definingPackage, fix d037846) -
+  \*   plaintext, like doc.plaintext
   \cup { Feed("reexportmodule.plaintext", S(z, "text", FALSE), "docutils") : z \in {"alldocs", "childtable"} }
   \cup { Feed("reexportmodule.plaintext", S("docstring", "text", FALSE), "stan") }
-  \cup { Feed("reexportmodule.plaintext", S("docstring", "text", FALSE), "rawdirective") }
   \* code blocks of a reST docstring, by language: ".. code:: LANG" / ".. code-block:: LANG" / ".. python::" all become a
   \*   doctest_block node whose text is colorized as Python whatever the language (restructuredtext.py:470-520,
   \*   node2stan.visit_doctest_block): Colorize -> flatten -> parsed
@@ -255,8 +251,7 @@ Kinds == {f.kind : f \in Feeds}
 Classes == {"plain", "xmlbreak", "linesep"}
 \* a feed only exists for some payload classes
 Active(f, cls) ==
-  /\ (cls = "linesep") => f.kind = "deprecated"           \* elsewhere a line separator is an ordinary character
-  /\ (f.route = "rawdirective") => MovedModuleDocformat = "new_package"
+  (cls = "linesep") => f.kind = "deprecated"              \* elsewhere a line separator is an ordinary character
 IsParse(st) == st \in {"ParseXml", "ParseXmlTags"}
 FirstParse(r) == CHOOSE i \in 1..Len(r) : IsParse(r[i]) /\ \A j \in 1..(i - 1) : ~IsParse(r[j])
 HasParse(r) == \E i \in 1..Len(r) : IsParse(r[i])
@@ -336,12 +331,11 @@ Done == pc = Len(Route) + 1
 
 \* ----------------------------------------------------------------------------- properties (model)
 NeverParsedRaw == ~parsedRaw
-\* open known findings (math text mode, docformat of a re-exported module): the invariants hold everywhere else
+\* open known finding math-text-mode-copied-raw: the invariants hold everywhere else
 KF_MathTextCopiedRaw == Source = "enum" /\ pair.route = "mathtext"
-KF_MovedModuleDocformat == Source = "enum" /\ pair.route = "rawdirective"
 \* the author's own raw directive in a reST docstring is outside the property
 Exempt == Source = "enum" /\ pair.route = "rawexplicit"
-NeverParsedRawExceptKnown == NeverParsedRaw \/ KF_MathTextCopiedRaw \/ KF_MovedModuleDocformat \/ Exempt
+NeverParsedRawExceptKnown == NeverParsedRaw \/ KF_MathTextCopiedRaw \/ Exempt
 \* a flow ends in the page at level 1 - or, after an XML error, nowhere; fallback routes included
 SinkLevelOne == (Source = "enum" /\ Done) => ((cont = "file" /\ level = 1) \/ (cont = "none" /\ cls = "xmlbreak"))
 SinkLevelOneExceptKnown == SinkLevelOne \/ KF_MathTextCopiedRaw
